@@ -1,6 +1,7 @@
 /-
   HotXL.Model.Fn.Fin — model of hotxlfp/formulas/financial.py: PV, written generically over
-  the operations of `HotXL.Fn.Math.ElemOps` (see `Model/Fn/Math.lean`).  Nothing here is an
+  the operations of `HotXL.Fn.Math.ElemOps` (see `Model/Fn/Math.lean`), with the integer-overflow
+  guard `HotXL.Fn.Math.pvGuard` on the growth factor `1 + rate`.  Nothing here is an
   exact rational function (the power `(1 + rate) ** periods`), so the `table` used by `eval`
   is empty and PV is reached through the driver op `math PV value…`.
 -/
@@ -38,6 +39,9 @@ where
   go (r n p f t : Value) : Except Err α :=
     match parseNumber r, parseNumber n, parseNumber p, parseNumber (dflt f), parseNumber (dflt t) with
     | .ok r, .ok n, .ok p, .ok f, .ok t =>
+      -- the integer-overflow guard on `growth = 1 + rate` (it cannot fire at `rate == 0`, where
+      -- `abs(growth) = 1`, so testing it before the `rate == 0` branch of `pv` changes nothing)
+      if pvGuard r n then .error .num else
       match ofNum O r, ofNum O n, ofNum O p, ofNum O f, ofNum O t with
       | some r, some n, some p, some f, some t => lift (pv O r n p f t)
       | _, _, _, _, _ => .error .error
